@@ -3,6 +3,7 @@
 package vault
 
 import (
+	"context"
 	"fmt"
 	"sort"
 	"strings"
@@ -22,6 +23,8 @@ path "auth/token/create/*" { capabilities = ["update"] }
 `
 
 type c06World struct {
+	ns1    *namespace.Namespace
+	nsTok  string // token of the child namespace
 	t      *testing.T
 	tc     *tcore
 	hub    *recHub
@@ -53,6 +56,21 @@ func newC06World(t *testing.T, transactional bool) *c06World {
 	if w.limTok == "" {
 		t.Fatalf("harness: %v", r)
 	}
+	// a child namespace with its own mount at the same path (rb/) as the root namespace
+	tc.mustOK(tc.req(logical.UpdateOperation, "sys/namespaces/ns1", tc.root, nil), "namespace")
+	ns, err := tc.c.namespaceStore.GetNamespaceByPath(tc.ctx, "ns1/")
+	if err != nil || ns == nil {
+		t.Fatalf("harness: namespace: %v", err)
+	}
+	w.ns1 = ns
+	nsCtx := namespace.ContextWithNamespace(context.Background(), ns)
+	tc.mustOK(tc.doCtx(nsCtx, &logical.Request{Operation: logical.UpdateOperation, Path: "sys/mounts/rb", ClientToken: tc.root, Data: map[string]any{"type": "recbe"}}), "ns mount")
+	tc.mustOK(tc.doCtx(nsCtx, &logical.Request{Operation: logical.UpdateOperation, Path: "sys/policy/c06", ClientToken: tc.root, Data: map[string]any{"policy": c06Policy}}), "ns policy")
+	tr := tc.doCtx(nsCtx, &logical.Request{Operation: logical.UpdateOperation, Path: "auth/token/create", ClientToken: tc.root, Data: map[string]any{"policies": []string{"default", "c06"}, "ttl": "1h"}})
+	if !tr.ok() || tr.resp == nil || tr.resp.Auth == nil {
+		t.Fatalf("harness: ns token: %v", tr)
+	}
+	w.nsTok = tr.resp.Auth.ClientToken
 	return w
 }
 
@@ -66,10 +84,13 @@ func (w *c06World) fork() *c06World {
 	w.hub.mu.Lock()
 	w.hub.issued, w.hub.revoked = map[string]bool{}, map[string]int{}
 	w.hub.mu.Unlock()
-	return &c06World{t: w.t, tc: n, hub: w.hub, parent: w.parent, limTok: w.limTok}
+	w.hub.mu.Lock()
+	w.hub.misrouted = nil
+	w.hub.mu.Unlock()
+	return &c06World{t: w.t, tc: n, hub: w.hub, parent: w.parent, limTok: w.limTok, ns1: w.ns1, nsTok: w.nsTok}
 }
 
-var c06Kinds = []string{"secret", "secret-wrapped", "secret-uselimited", "login", "login-wrapped", "create", "create-role", "create-orphan", "create-wrapped"}
+var c06Kinds = []string{"secret", "secret-in-namespace", "secret-wrapped", "secret-uselimited", "login", "login-wrapped", "create", "create-role", "create-orphan", "create-wrapped"}
 
 func (w *c06World) request(kind string) rr {
 	tc := w.tc
@@ -80,6 +101,8 @@ func (w *c06World) request(kind string) rr {
 	switch kind {
 	case "secret":
 		return tc.do(&logical.Request{Operation: logical.ReadOperation, Path: "rb/creds/a", ClientToken: w.parent})
+	case "secret-in-namespace":
+		return tc.doCtx(namespace.ContextWithNamespace(context.Background(), w.ns1), &logical.Request{Operation: logical.ReadOperation, Path: "rb/creds/a", ClientToken: w.nsTok})
 	case "secret-wrapped":
 		return tc.do(wrap(&logical.Request{Operation: logical.ReadOperation, Path: "rb/creds/a", ClientToken: w.parent}))
 	case "secret-uselimited":
@@ -196,7 +219,28 @@ func (w *c06World) invariant(tokensBefore map[string]bool) (string, string) {
 			}
 		}
 	}
+	// leases of the child namespace live below its own storage prefix
+	if w.ns1 != nil {
+		nsPfx := "namespaces/" + w.ns1.UUID + "/sys/expire/id/"
+		nsCtx := namespace.ContextWithNamespace(context.Background(), w.ns1)
+		for _, k := range sortedKeys(w.keysUnder(nsPfx + "rb/")) {
+			l, err := exp.loadEntry(nsCtx, strings.TrimPrefix(k, nsPfx))
+			if err != nil || l == nil {
+				continue
+			}
+			if l.Secret != nil {
+				if id, _ := l.Secret.InternalData["id"].(string); id != "" {
+					covered[id] = true
+				}
+			}
+		}
+	}
 	w.hub.mu.Lock()
+	if len(w.hub.misrouted) > 0 {
+		m := w.hub.misrouted[0]
+		w.hub.mu.Unlock()
+		return "revocation-routed-to-wrong-backend", "the rollback revocation of a generated secret was delivered to another backend instance: " + m
+	}
 	var orphan []string
 	for id := range w.hub.issued {
 		if w.hub.revoked[id] == 0 && !covered[id] {
@@ -366,6 +410,9 @@ func pickKsPhase(n, max, phase int) []int {
 // c06Outcome checks what must hold when the client received the credentials.
 func c06Outcome(w *c06World, kind string, r rr) (string, string) {
 	ctx := namespace.RootContext(w.tc.ctx)
+	if kind == "secret-in-namespace" {
+		ctx = namespace.ContextWithNamespace(context.Background(), w.ns1)
+	}
 	exp := w.tc.c.expiration
 	resp := r.resp
 	if resp == nil {
